@@ -230,3 +230,40 @@ func vfPossible(c configCase, h2c, halfH1, get bool) string {
 	}
 	return ""
 }
+
+
+// vfEntryContradiction: an include/exclude entry that asks for something the
+// statement calls impossible (given the version scope it applies to) is a
+// contradictory configuration: it must be rejected, not resolved to nothing.
+func vfEntryContradiction(r vfFeat, e *conformancev1.ConfigCase) string {
+	V := r.V
+	if e.Version != 0 {
+		V = []conformancev1.HTTPVersion{e.Version}
+	}
+	has := func(v conformancev1.HTTPVersion) bool {
+		for _, x := range V {
+			if x == v {
+				return true
+			}
+		}
+		return false
+	}
+	onlyH1 := len(V) > 0
+	for _, x := range V {
+		onlyH1 = onlyH1 && x == 1
+	}
+	tlsFalse := e.UseTls != nil && !*e.UseTls
+	switch {
+	case e.Protocol == 2 && !has(2):
+		return "grpc-entry-without-http2"
+	case e.Version == 3 && tlsFalse:
+		return "http3-entry-without-tls"
+	case e.UseTlsClientCerts != nil && *e.UseTlsClientCerts && tlsFalse:
+		return "client-certs-entry-without-tls"
+	case e.StreamType == 5 && onlyH1:
+		return "full-duplex-entry-with-only-http1"
+	case e.StreamType == 4 && onlyH1 && !r.HalfH1:
+		return "half-duplex-entry-with-only-http1"
+	}
+	return ""
+}
